@@ -120,7 +120,18 @@ fn configs(rng: &mut Rng) -> J {
 /// line-length limit is configured), assignments with operators in different columns (aligned), and - next to them, at the
 /// same indentation - comments, pragmas and string literals that contain `:=` / `=>` / `:` and must come through verbatim.
 fn composed(rng: &mut Rng) -> String {
-    const LINES: [&str; 16] = [
+    const LINES: [&str; 26] = [
+        // literals that contain comment / pragma delimiters, followed by real comments (round e)
+        "url := 'http://plc.local/api'; // endpoint",
+        "s := 'a // b';   // c // d",
+        "s := '(* not a comment *)'; (* a comment *)",
+        "s := 'open (* only'; // tail",
+        "s := \"w // x\"; // wide",
+        "s := '{not a pragma}'; {pragma} // c",
+        "s := 'it$'s // here'; // after an escaped quote",
+        "a := 1; (* c1 *) total := 2; // c2 (* not nested *)",
+        "s := '*) // (*';",
+        "a := a / 2; // halve: a / 2",
         "averyveryverylongname := a + total;",
         "a := 1;",
         "total := total + a;",
